@@ -15,7 +15,7 @@ ID = "C11"
 LEVEL = "exploration"
 SHARDS = {"quick": 8, "thorough": 16}
 RULE = ("a raw 0xC0 body (assembled by the model's vendor-layout encoder plus raw byte overrides) is reported to a fresh "
-        "AirConditioner, either through refresh() against the model device or through Response.construct + _update_state, or twice to the same client with local attribute changes in between, or after a different report to the same client, or through a multi-query refresh (energy polling on) in which an unsolicited notification overtakes the state reply; the "
+        "AirConditioner, either through refresh() against the model device or through Response.construct + _update_state, or twice to the same client with local attribute changes in between, or after a different report to the same client, or through a multi-query refresh (energy polling on) in which an unsolicited notification overtakes the state reply or the optional energy query goes unanswered; the "
         "public attributes must equal the vendor-layout reading of the body: power, mode (members 1..6), setpoint (alternate code "
         "c!=0 => c+12 else primary+16, + half bit), fan (member or raw 0..127), swing (canonical nibbles), turbo, aux mode, eco, "
         "purifier, sleep, Fahrenheit, follow-me, filter, display ((b14>>4)&7 != 7), target humidity iff length>=20 else None, "
@@ -81,9 +81,13 @@ def check_case(case: dict):
                 def on_data(dev_, conn, fr_):
                     pp = rc.frame_parse(fr_)
                     if pp.body[0] == 0x41 and pp.body[1] == 0x81:
+                        if case.get("energy_silent"):
+                            return None           # (the state query is answered normally in this variant)
                         conn.send_stream(dev_.wrap(conn, note), delay=0.02)
                         conn.send_stream(dev_.wrap(conn, current["frame"]), delay=0.06)
                         return ("drop",)
+                    if case.get("energy_silent") and pp.body[0] == 0x41 and pp.body[1] == 0x21:
+                        return ("drop",)          # the unit never answers the optional energy query
                     return None
                 dev.on_data = on_data
             net.listen("10.0.0.9", 6444, dev)
@@ -112,7 +116,7 @@ def check_case(case: dict):
 
         vloop.run(main, net)
         got = res["got"]
-        if not got["online"] or not got["supported"]:
+        if not got["online"] or not (got["supported"] or case.get("energy_silent")):
             return ("offline", f"valid state response not accepted: online={got['online']} supported={got['supported']}")
     exp, d = expected(body)
     for k, v in exp.items():
@@ -146,7 +150,7 @@ def _nt(body: bytes, case) -> bool:
 
 def _run_one(ctx, case):
     body = bytes.fromhex(case["body"])
-    ctx.case(hash((body, case.get("via", "decoder"), case.get("check", "crc"), case.get("ftype", 3), case.get("before"))), _nt(body, case),
+    ctx.case(hash((body, case.get("via", "decoder"), case.get("check", "crc"), case.get("ftype", 3), case.get("before"), case.get("energy_silent"))), _nt(body, case),
              cls=case.get("cls", "random") + "/" + case.get("via", "decoder"))
     ctx.sample(case.get("cls", "random"), case)
     return check_case(case)
@@ -227,6 +231,8 @@ def run(ctx) -> None:
                 ctx.check(c3, lambda c: _run_one(ctx, c))
             if ctx.mine(seq + 1) and seq % 2 == 0:
                 c4 = dict(case, via="refresh_multi", version=2 if seq % 3 else 3, cls=case["cls"] + " multi-query")
+                if seq % 4 == 0:
+                    c4["energy_silent"] = True       # the optional query of the same refresh goes unanswered
                 ctx.check(c4, lambda c: _run_one(ctx, c))
     ctx.sweep("second report on the same client / multi-query refresh with an overtaken state reply", seq, True)
 
